@@ -620,6 +620,12 @@ class MinMaxAggregator:
                 rest_cond.append(cond)
         assert oldmax is not None
 
+        # the result variable is replaced by the chain variables, it can not be used anywhere else
+        for other in chain(rest_cond, [stm.priority], stm.terms):
+            if varname in map(lambda x: x.name, collect_ast(other, "Variable")):
+                log.info(f"Cannot optimize {loc2str(stm.location)} as the result is used more than once.")
+                return [stm]
+
         # check if all Variables from old predicate are used in the tuple identifier
         # to make a unique semantics
         # see issue #8
@@ -703,6 +709,12 @@ class MinMaxAggregator:
         else:
             log.info(f"Cannot optimize {loc2str(term_tuple[0].location)} as the weight is not simple enough.")
             return [elem]
+
+        # the result variable is replaced by the chain variables, it can not be used anywhere else
+        for other in chain(rest_cond, term_tuple[1:]):
+            if varname in map(lambda x: x.name, collect_ast(other, "Variable")):
+                log.info(f"Cannot optimize {loc2str(term_tuple[0].location)} as the result is used more than once.")
+                return [elem]
 
         # check if all Variables from old predicate are used in the tuple identifier
         # to make a unique semantics
